@@ -51,7 +51,9 @@ pub(crate) fn format_docstring(docstring: String) -> String {
         } else if line.trim().is_empty() {
             result.push(String::new());
         } else {
-            let dedented = if line.len() > min_indent {
+            // `min_indent` is a byte count taken from another line: with multi-byte
+            // whitespace it may not fall on a character boundary of this one
+            let dedented = if line.len() > min_indent && line.is_char_boundary(min_indent) {
                 &line[min_indent..]
             } else {
                 line.trim_start()
